@@ -100,9 +100,10 @@ func body() {
 // ---------------------------------------------------------------- store level
 
 var (
-	pmu    sync.Mutex
-	parked = map[string]chan struct{}{} // shard dir -> release channel
-	inPark = map[string]chan struct{}{} // shard dir -> closed when the snapshot is parked
+	pmu        sync.Mutex
+	parked     = map[string]chan struct{}{} // shard dir -> release channel
+	inPark     = map[string]chan struct{}{} // shard dir -> closed when the snapshot is parked
+	flushFails = map[string]bool{}          // shard dir -> the next cache flush fails once (I/O error after the file was written)
 )
 
 func onSnapWritten(name string, args ...interface{}) error {
@@ -111,7 +112,12 @@ func onSnapWritten(name string, args ...interface{}) error {
 	rel, in := parked[p], inPark[p]
 	delete(parked, p)
 	delete(inPark, p)
+	failNow := flushFails[p]
+	delete(flushFails, p)
 	pmu.Unlock()
+	if failNow {
+		return fmt.Errorf("injected I/O error while flushing the cache")
+	}
 	if rel != nil {
 		close(in)
 		<-rel
@@ -201,9 +207,32 @@ func storeCase(caseID string, seed int64, idx int, dir string) {
 
 	// ---- (a) full backup -> restore
 	var buf bytes.Buffer
-	if err := src.Store.BackupShard(src.ShardID, time.Time{}, &buf); err != nil {
-		fail("C18/backup-error", "BackupShard failed: "+err.Error())
-		return
+	if cacheNonEmpty && idx%3 == 0 {
+		// the cache flush inside the backup fails once: the backup must be
+		// refused, or still hold everything the source holds
+		pmu.Lock()
+		flushFails[src.ShardDir()] = true
+		pmu.Unlock()
+		err := src.Store.BackupShard(src.ShardID, time.Time{}, &buf)
+		pmu.Lock()
+		fired := !flushFails[src.ShardDir()]
+		delete(flushFails, src.ShardDir())
+		pmu.Unlock()
+		if fired {
+			r.Count("backups_with_a_failing_cache_flush", 1)
+		}
+		if err != nil {
+			r.Count("backups_refused_after_failed_cache_flush", 1)
+			buf.Reset()
+		} else if fired {
+			ops = append(ops, "(the cache flush inside BackupShard failed once; BackupShard reported success)")
+		}
+	}
+	if buf.Len() == 0 {
+		if err := src.Store.BackupShard(src.ShardID, time.Time{}, &buf); err != nil {
+			fail("C18/backup-error", "BackupShard failed: "+err.Error())
+			return
+		}
 	}
 	r.Count("full_backups", 1)
 	if _, mm, err := tr.CheckAll(src, true); err != nil || mm != nil {
